@@ -216,19 +216,34 @@ def token_decode(tok):
 
 
 def token_roundtrip(tok):
-    """The library's own parse/build agree with each other and with the independent decoder."""
+    """The library's own parse / build round-trip on this token and the path is made of moves only
+    (whatever alphabet the text uses: the property does not fix it)."""
     import traph.helpers as th
     try:
         i, path = th.parse_pagination_token(tok)
-        if th.build_pagination_token(i, path) != tok:
+        if th.build_pagination_token(i, path) != tok or i < 0:
             return False
+        while path:
+            if path % 4 == 0:
+                return False
+            path //= 4
+        return True
+    except Exception:
+        return False
+
+
+def token_indep(tok):
+    """The independent decoder (this harness' reading of the text format) agrees with the library's."""
+    import traph.helpers as th
+    try:
+        i, path = th.parse_pagination_token(tok)
         d = token_decode(tok)
         if d is None or d[0] != i:
             return False
         x = 0
         for g in d[1]:
             x = x * 4 + g
-        return x == path and all(g in (1, 2, 3) for g in d[1])
+        return x == path
     except Exception:
         return False
 
